@@ -3,6 +3,7 @@ import Mathlib.Data.Nat.Prime.Basic
 import StrandModel.Lemmas.NatLawful
 import StrandModel.Lemmas.Encode
 import StrandModel.Lemmas.Codec
+import StrandModel.Lemmas.CodecWire
 import StrandModel.Lemmas.ShuffleVerify
 import StrandModel.Model.PanicAware
 /-
@@ -797,5 +798,215 @@ theorem shuffleProofDecR_lift (o : Ops ℕ ℕ) :
   | some p3 =>
   obtain ⟨a3, r3⟩ := p3
   rfl
+
+/-! ### the decoders of `natOps P fl` -/
+
+section NatDecoders
+variable (P : Params) (hprime : P.p.Prime) (hp : P.p = 2 * P.q + 1) (fl : Flavour)
+include hprime hp
+
+theorem pkFromBytesR_eq (bs : Bytes) :
+    tryFromSliceR (natCodecER P fl) bs = optR (tryFromSlice (natOps P fl).codecE bs) := by
+  rw [natCodecER_eq P hprime hp, tryFromSliceR_lift]; rfl
+
+theorem ctFromBytesR_eq (bs : Bytes) :
+    ctFromBytesR P fl bs = optR (tryFromSlice (codecCt (natOps P fl)) bs) := by
+  unfold ctFromBytesR
+  rw [natCodecER_eq P hprime hp]
+  exact (congrArg (fun d => tryFromSliceR d bs) (ctDecR_lift (natOps P fl))).trans
+    (tryFromSliceR_lift _ bs)
+
+theorem ctsFromBytesR_eq (bs : Bytes) :
+    ctsFromBytesR P fl bs = optR (tryFromSlice (vecC (natOps P fl)) bs) := by
+  unfold ctsFromBytesR
+  rw [natCodecER_eq P hprime hp]
+  exact (congrArg (fun d => tryFromSliceR (nestedR d) bs) (ctDecR_lift (natOps P fl))).trans
+    ((congrArg (fun d => tryFromSliceR d bs) (nestedR_lift _)).trans (tryFromSliceR_lift _ bs))
+
+theorem schnorrFromBytesR_eq (bs : Bytes) :
+    schnorrFromBytesR P fl bs = optR (tryFromSlice (codecSchnorr (natOps P fl)) bs) := by
+  unfold schnorrFromBytesR
+  rw [natCodecER_eq P hprime hp, natCodecXR_eq]
+  exact (congrArg (fun d => tryFromSliceR d bs) (schnorrDecR_lift (natOps P fl))).trans
+    (tryFromSliceR_lift _ bs)
+
+theorem cpFromBytesR_eq (bs : Bytes) :
+    cpFromBytesR P fl bs = optR (tryFromSlice (codecCP (natOps P fl)) bs) := by
+  unfold cpFromBytesR
+  rw [natCodecER_eq P hprime hp, natCodecXR_eq]
+  exact (congrArg (fun d => tryFromSliceR d bs) (cpDecR_lift (natOps P fl))).trans
+    (tryFromSliceR_lift _ bs)
+
+theorem shuffleProofFromBytesR_eq (bs : Bytes) :
+    shuffleProofFromBytesR P fl bs
+      = optR (tryFromSlice (codecShuffleProof (natOps P fl)) bs) := by
+  unfold shuffleProofFromBytesR
+  rw [natCodecER_eq P hprime hp, natCodecXR_eq]
+  exact (congrArg (fun d => tryFromSliceR d bs) (shuffleProofDecR_lift (natOps P fl))).trans
+    (tryFromSliceR_lift _ bs)
+
+end NatDecoders
+
+/-! ### what decoding guarantees (the part of C11 needed here) -/
+
+theorem natCodecE_dec_valid (P : Params) (hp : P.p = 2 * P.q + 1) (fl : Flavour) {bs r : Bytes}
+    {a : ℕ} (h : (natCodecE P fl).dec bs = some (a, r)) : natValid P a ∧ a < P.p := by
+  simp only [natCodecE] at h
+  cases hd : decBytesVec bs with
+  | none => rw [hd] at h; cases h
+  | some x =>
+    obtain ⟨b, rest⟩ := x
+    rw [hd] at h
+    simp only at h
+    cases he : elementFromBytes P fl b with
+    | none => rw [he] at h; cases h
+    | some e =>
+      rw [he] at h
+      simp only [Option.some.injEq, Prod.mk.injEq] at h
+      obtain ⟨rfl, _⟩ := h
+      exact elementFromNat_valid P hp _ _ he
+
+theorem nested_dec_mem {α : Type} {c : Codec α} {bs r : Bytes} {xs : List α}
+    (h : (nested c).dec bs = some (xs, r)) : ∀ x ∈ xs, ∃ item, c.dec item = some (x, []) := by
+  simp only [nested] at h
+  cases hd : (vecOf bytesVec).dec bs with
+  | none => rw [hd] at h; cases h
+  | some p =>
+    obtain ⟨items, rest⟩ := p
+    rw [hd] at h
+    simp only at h
+    cases hm : mapOpt (tryFromSlice c) items with
+    | none => rw [hm] at h; cases h
+    | some ys =>
+      rw [hm] at h
+      simp only [Option.some.injEq, Prod.mk.injEq] at h
+      obtain ⟨rfl, _⟩ := h
+      intro x hx
+      obtain ⟨i, _, hi⟩ := (mapOpt_mem items ys hm).2 x hx
+      exact ⟨i, tryFromSlice_eq_some_iff.mp hi⟩
+
+theorem codecShuffleProof_dec_vectors {E X : Type} (o : Ops E X) {bs r : Bytes}
+    {pf : ShuffleProof E X} (h : (codecShuffleProof o).dec bs = some (pf, r)) :
+    ∃ r2 r3 r4, (vecE o).dec r2 = some (pf.cs, r3) ∧ (vecE o).dec r3 = some (pf.cHats, r4) := by
+  simp only [codecShuffleProof] at h
+  cases h1 : (codecCommitments o).dec bs with
+  | none => rw [h1] at h; cases h
+  | some p1 =>
+    obtain ⟨t, r1⟩ := p1
+    rw [h1] at h
+    simp only at h
+    cases h2 : (codecResponses o).dec r1 with
+    | none => rw [h2] at h; cases h
+    | some p2 =>
+      obtain ⟨s, r2⟩ := p2
+      rw [h2] at h
+      simp only at h
+      cases h3 : (vecE o).dec r2 with
+      | none => rw [h3] at h; cases h
+      | some p3 =>
+        obtain ⟨cs, r3⟩ := p3
+        rw [h3] at h
+        simp only at h
+        cases h4 : (vecE o).dec r3 with
+        | none => rw [h4] at h; cases h
+        | some p4 =>
+          obtain ⟨ch, r4⟩ := p4
+          rw [h4] at h
+          simp only [Option.some.injEq, Prod.mk.injEq] at h
+          obtain ⟨rfl, _⟩ := h
+          exact ⟨r2, r3, r4, h3, h4⟩
+
+/-- the shuffle verifier on BYTES never panics: decoding does not panic and yields canonical
+    members, on which `check_proof` does not panic -/
+theorem verifyShuffleBytesR_eq {P : Params} (h : SafePrimeGroup P) (fl : Flavour)
+    (gens : List ℕ) (hgens : ∀ g ∈ gens, natValid P g) (pkB pfB esB ePrimesB label : Bytes) :
+    verifyShuffleBytesR P fl gens pkB pfB esB ePrimesB label
+      = match tryFromSlice (natOps P fl).codecE pkB,
+              tryFromSlice (codecShuffleProof (natOps P fl)) pfB,
+              tryFromSlice (vecC (natOps P fl)) esB,
+              tryFromSlice (vecC (natOps P fl)) ePrimesB with
+        | some pk, some pf, some es, some ePrimes =>
+          .ok (checkProof (natOps P fl) gens pk pf es ePrimes label)
+        | _, _, _, _ => .error .err := by
+  have hprime := h.p_prime
+  have hp := h.p_eq
+  unfold verifyShuffleBytesR
+  rw [pkFromBytesR_eq P hprime hp, shuffleProofFromBytesR_eq P hprime hp,
+    ctsFromBytesR_eq P hprime hp, ctsFromBytesR_eq P hprime hp]
+  cases hpk : tryFromSlice (natOps P fl).codecE pkB with
+  | none => rfl
+  | some pk =>
+    cases hpf : tryFromSlice (codecShuffleProof (natOps P fl)) pfB with
+    | none => rfl
+    | some pf =>
+      cases hes : tryFromSlice (vecC (natOps P fl)) esB with
+      | none => rfl
+      | some es =>
+        cases hep : tryFromSlice (vecC (natOps P fl)) ePrimesB with
+        | none => rfl
+        | some ePrimes =>
+          simp only [optR]
+          have hE : ∀ {bs r : Bytes} {a : ℕ}, (natOps P fl).codecE.dec bs = some (a, r) →
+              natValid P a ∧ a < P.p := fun hd => natCodecE_dec_valid P hp fl hd
+          obtain ⟨r2, r3, r4, hcs, hch⟩ :=
+            codecShuffleProof_dec_vectors _ (tryFromSlice_eq_some_iff.mp hpf)
+          refine checkProofR_eq_checkProof h fl gens pk pf es ePrimes label hgens
+            (hE (tryFromSlice_eq_some_iff.mp hpk)) ?_ ?_ ?_
+          · intro a ha
+            obtain ⟨item, hi⟩ := nested_dec_mem hcs a ha
+            exact (hE hi).1
+          · intro a ha
+            obtain ⟨item, hi⟩ := nested_dec_mem hch a ha
+            exact hE hi
+          · intro e he
+            obtain ⟨item, hi⟩ := nested_dec_mem (tryFromSlice_eq_some_iff.mp hes) e he
+            obtain ⟨r1, h1, h2⟩ := codecCt_dec_eq_some_iff.mp hi
+            exact ⟨(hE h1).1, (hE h2).1⟩
+
+/-! ### sizes -/
+
+/-- a decoded `Vec<u8>` and the rest account for the whole input minus the 4-byte prefix -/
+theorem decBytesVec_size {bs a r : Bytes} (h : decBytesVec bs = some (a, r)) :
+    a.length + r.length + 4 = bs.length := by
+  obtain ⟨n, rest, h1, h2, rfl, rfl⟩ := decBytesVec_eq_some_iff.1 h
+  obtain ⟨a, b, c, d, rfl, _⟩ := decU32_eq_some_iff.1 h1
+  simp only [List.length_take, List.length_drop, List.length_cons]
+  omega
+
+/-- `n` decoded items, each consuming at least one byte, need at least `n` bytes -/
+theorem decItems_size {α : Type} {c : Codec α}
+    (hc : ∀ bs a r, c.dec bs = some (a, r) → r.length < bs.length) :
+    ∀ (n : ℕ) (bs : Bytes) (xs : List α) (r : Bytes), decItems c n bs = some (xs, r) →
+      xs.length = n ∧ n + r.length ≤ bs.length
+  | 0, bs, xs, r, h => by
+    rw [decItems] at h
+    simp only [Option.some.injEq, Prod.mk.injEq] at h
+    obtain ⟨rfl, rfl⟩ := h
+    simp
+  | n + 1, bs, xs, r, h => by
+    obtain ⟨a, r1, as, h1, h2, rfl⟩ := decItems_succ_eq_some_iff.1 h
+    have := hc bs a r1 h1
+    obtain ⟨h3, h4⟩ := decItems_size hc n r1 as r h2
+    exact ⟨by rw [List.length_cons, h3], by omega⟩
+
+theorem vecOf_size {α : Type} {c : Codec α}
+    (hc : ∀ bs a r, c.dec bs = some (a, r) → r.length < bs.length) {bs r : Bytes} {xs : List α}
+    (h : (vecOf c).dec bs = some (xs, r)) : xs.length + r.length + 4 ≤ bs.length := by
+  obtain ⟨n, rest, h1, h2⟩ := vecOf_dec_eq_some_iff.1 h
+  obtain ⟨a, b, c', d, rfl, _⟩ := decU32_eq_some_iff.1 h1
+  obtain ⟨h3, h4⟩ := decItems_size hc n rest xs r h2
+  simp only [List.length_cons]
+  omega
+
+/-- borsh's only speculative allocation is bounded by 4096 bytes (or one item) -/
+theorem prealloc_le (sz len : ℕ) : cautious sz len * sz ≤ max 4096 sz := by
+  unfold cautious
+  by_cases h1 : 1 ≤ min len (4096 / sz)
+  · rw [Nat.max_eq_left h1]
+    calc min len (4096 / sz) * sz ≤ 4096 / sz * sz := Nat.mul_le_mul_right _ (Nat.min_le_right _ _)
+      _ ≤ 4096 := Nat.div_mul_le_self _ _
+      _ ≤ max 4096 sz := Nat.le_max_left _ _
+  · rw [Nat.max_eq_right (by omega), Nat.one_mul]
+    exact Nat.le_max_right _ _
 
 end Strand
